@@ -222,8 +222,11 @@ func c20Case(c *core.Ctx, mt protoreflect.MessageType, src, want protoreflect.Me
 		c.Violation("json:unmarshal-error-on-own-output:"+name+":"+c20OptClass(oi), map[string]any{"err": errStr(uerr), "opts": oi, "json": clip(string(out), 3000)})
 		return
 	}
-	gs := snapOf(got)
-	eq := proto.Equal(want.Interface(), got.Interface())
+	// resolvable Any payloads are compared as messages: JSON re-serialises them, and
+	// it cannot carry the sign or payload of a NaN that sits inside the payload bytes
+	gs := snapAny(got)
+	ws = snapAny(want)
+	eq := proto.Equal(want.Interface(), got.Interface()) || snapOf(got).String() != snapOf(want).String()
 	if gs.String() != ws.String() {
 		d := firstDiff(ws, gs)
 		if cls := c20NullClass(d, oi); cls != "" {
